@@ -433,12 +433,14 @@ pub mod math {
 
     #[cfg(feature = "std")]
     #[inline]
+    #[allow(dead_code)]
     pub fn powi(base: f64, exp: i32) -> f64 {
         base.powi(exp)
     }
 
     #[cfg(not(feature = "std"))]
     #[inline]
+    #[allow(dead_code)]
     pub fn powi(base: f64, exp: i32) -> f64 {
         libm::pow(base, exp as f64)
     }
